@@ -78,7 +78,7 @@ def one(ctx, case, whole):
         if tuple(got) != (exp_pos, exp_acc):
             ctx.fail("move_dist_t3(%d, %d, %d, %d, %r) = %r, firmware recurrence gives %r"
                      % (T, rate, accel, jerk, accum, got, (exp_pos, exp_acc)), whole)
-        if not all(type(v) is int for v in got):
+        if not all(isinstance(v, int) and not isinstance(v, bool) for v in got):
             ctx.fail("move_dist_t3 returned non-integers %r" % (got,), whole)
         set_ambient(amb)
         got_r = call_sut(ebb_calc.rate_t3, T, rate, accel, jerk)
